@@ -18,6 +18,58 @@ from ..src import Repo
 ACC = "GeckoTempStructAccessor"
 
 
+def _make_accessor(repo, interp, cls, units):
+    """A temperature accessor built by /repo's own constructor chain on a structure whose
+    units item reads `units`."""
+    from ..absint import ClassRef
+    st = Obj(None, {"accessors": {"TempUnits": Obj(None, {"value": units, "watch": Native(lambda a, k: None)})}, "status_block": b""})
+    hook = interp.call_hook
+    interp.call_hook = None
+    try:
+        obj = interp.apply(ClassRef(cls), [st, "Temp", 0, "ALL"], {})
+    finally:
+        interp.call_hook = hook
+    return obj
+
+
+def unit_sources(repo, fi, depth=0):
+    """Where does the value compared with 'C' in fi come from?  -> list of (kind, text)
+    kind: 'live' (read from the TempUnits accessor's .value within the call),
+          'cached' (a stored attribute), 'unknown'"""
+    out = []
+    cls = fi.cls
+
+    def resolve(e, f, d):
+        t = ast.unparse(e)
+        if isinstance(e, ast.Name):
+            defs = [n for n in ast.walk(f.node) if isinstance(n, ast.Assign) and any(isinstance(x, ast.Name) and x.id == e.id for x in n.targets)]
+            if len(defs) == 1:
+                return resolve(defs[0].value, f, d)
+            return ("unknown", t)
+        if isinstance(e, ast.Attribute) and e.attr == "value":
+            b = ast.unparse(e.value)
+            if "KEY_TEMP_UNITS" in b or b.endswith("_temperature_unit_accessor") or b.endswith("_unit_of_measurement_accessor"):
+                return ("live", t)
+            return ("unknown", t)
+        if isinstance(e, ast.Attribute) and isinstance(e.value, ast.Name) and e.value.id == "self" and d < 3:
+            for k in repo.mro(cls):
+                if e.attr in k.methods and k.methods[e.attr].is_property:
+                    prop = k.methods[e.attr]
+                    rets = [n.value for n in ast.walk(prop.node) if isinstance(n, ast.Return) and n.value is not None]
+                    kinds = [resolve(r, prop, d + 1) for r in rets]
+                    if kinds and all(x[0] == "live" for x in kinds):
+                        return ("live", t)
+                    bad = [x for x in kinds if x[0] != "live"]
+                    return bad[0] if bad else ("unknown", t)
+            return ("cached", t)
+        return ("unknown", t)
+
+    for n in ast.walk(fi.node):
+        if isinstance(n, ast.Compare) and len(n.ops) == 1 and isinstance(n.comparators[0], ast.Constant) and n.comparators[0].value == "C":
+            out.append(resolve(n.left, fi, depth))
+    return out
+
+
 def run_reader(repo, units):
     interp = Interp(repo)
     cls = repo.cls(ACC)
@@ -28,8 +80,7 @@ def run_reader(repo, units):
         return NotImplemented
 
     interp.call_hook = hook
-    st = Obj(None, {"accessors": {"TempUnits": Obj(None, {"value": units})}})
-    obj = Obj(cls, {"struct": st})
+    obj = _make_accessor(repo, interp, cls, units)
     return interp.call(repo.own_method(ACC, "_get_value"), obj, [None])
 
 
@@ -45,8 +96,7 @@ def run_writer(repo, method, units):
         return NotImplemented
 
     interp.call_hook = hook
-    st = Obj(None, {"accessors": {"TempUnits": Obj(None, {"value": units})}})
-    obj = Obj(cls, {"struct": st})
+    obj = _make_accessor(repo, interp, cls, units)
     interp.call(repo.own_method(ACC, method), obj, [Affine(1, 0)])
     if len(got) != 1:
         raise Undecided(f"{method} delegated {len(got)} times")
@@ -57,6 +107,7 @@ def check(ctx):
     repo = Repo()
     ctx.rule("R1", "affine inverse pair: reader is raw/18 (C) and (raw+320)/10 (F); each writer is its exact inverse over the rationals (writer(reader(x)) == x), slopes positive (order preserved), truncation to int is the only rounding; sync and async writers identical")
     ctx.rule("R2", "unit consistency: temperature_unit, min_temp and max_temp branch on the same unit value; Celsius constants on the 'C' arm, Fahrenheit otherwise; limits of the two units denote the same temperatures")
+    ctx.rule("R4", "live unit: reader, both writers, symbol and limits each read the unit from the TempUnits item within the call (no cached copy), so they agree at every instant incl. inside change notifications")
     ctx.rule("R3", "operation ladder: truth table of current_operation over (heating flag absent/on/off) x (cooling flag absent/on/off) x (current <,=,> real target) equals the statement's decision")
     want_reader = {"C": (Fraction(1, 18), Fraction(0)), "F": (Fraction(1, 10), Fraction(32))}
     readers = {}
@@ -124,6 +175,21 @@ def check(ctx):
         Fraction(consts["MAX_TEMP_C"]) * Fraction(9, 5) + 32 == consts.get("MAX_TEMP_F")
     ctx.ob("R2", "limits::same-temperatures", ok, f"Celsius and Fahrenheit limits denote different temperatures: {consts}")
     ctx.ob("R2", "symbols", "C" in str(consts.get("TEMP_CELCIUS")) and "F" in str(consts.get("TEMP_FARENHEIGHT")), "unit symbols swapped")
+
+    # ---- R4 live unit -----------------------------------------------------------------------
+    n_src = 0
+    for cname, members in ((ACC, ("_get_value", "_set_value", "async_set_value")), ("GeckoWaterHeater", ("temperature_unit", "min_temp", "max_temp"))):
+        for mname in members:
+            fi = repo.own_method(cname, mname)
+            srcs = unit_sources(repo, fi)
+            n_src += len(srcs)
+            ctx.ob("R4", f"{fi.qual}::unit-test-present", bool(srcs), f"{fi.qual}: no comparison of the unit with 'C' found", fi.loc)
+            for kind, text in srcs:
+                ctx.ob("R4", f"{fi.qual}::unit-read-live", kind == "live",
+                       f"{fi.qual}: the unit it converts with comes from `{text}` ({kind}), not from a read of the TempUnits item within the call: values, symbol and limits can disagree "
+                       f"while the setting changes (e.g. inside the change notification, where a cached copy is still stale)", fi.loc,
+                       sample={"rule": "R4", "member": fi.qual, "source": text, "kind": kind})
+    ctx.floor("R4", "unit comparisons", n_src, 6)
 
     # ---- R3 -------------------------------------------------------------------------------
     co = repo.own_method("GeckoWaterHeater", "current_operation")
